@@ -260,7 +260,10 @@ func (g *Gen) GenProg() *ProgDef {
 	p.Root = g.genCmd("prog", 0, used, reserved)
 	p.Root.UnsetOptions = false
 	// environment: set some of the bound variables
-	envTexts := []string{"true", "false", "TRUE", "False", "yes", "1", "42", "-3", "abc", "1.5", "x y", ""}
+	// unset / empty / valid / invalid for the type / padded with white space (must be taken verbatim:
+	// " 42" is not an int, "true " is not a bool, " " is a set variable) / mixed case
+	envTexts := []string{"true", "false", "TRUE", "False", "tRuE", "yes", "1", "42", "-3", "+5", "abc", "1.5", "1e3", "0x10", "x y", "",
+		" 42", "42 ", " true", "false\n", "\t", " ", "  x  ", "Prod-EU", "a=b", "--x", "nan", "-"}
 	for _, e := range envNamePool {
 		if g.pct(50) {
 			p.Env[e] = g.pick(envTexts)
